@@ -91,6 +91,7 @@ type Config struct {
 
 // Engine is one worker: term store, solver, and the state of the current path.
 type Engine struct {
+	blockFrame *frame // frame of the intrinsic about to block (deadlock messages)
 	jsonPath []string // field path of the json.Unmarshal in progress (messages only)
 	cfg   *Config
 	T     *sym.Store
@@ -502,21 +503,30 @@ func (e *Engine) recordViolation(msg, where string, m map[string]uint64) {
 	e.violations = append(e.violations, v)
 }
 
+// finishViolation reports that the code between verif.MustFinish and verif.Finished did
+// not come back (step bound exceeded, or every goroutine blocked for ever).
+func (e *Engine) finishViolation(detail string) {
+	msg := "engine: " + e.finishMsg
+	e.finishBudget = 0
+	if e.check(e.T.True) != sym.Sat {
+		panic(pathEnd{"unknown", "path condition not satisfiable at MustFinish bound"})
+	}
+	m, err := e.S.Model(e.pathVars())
+	if err != nil {
+		panic(pathEnd{"unknown", "no model at MustFinish bound"})
+	}
+	if detail != "" {
+		e.notes = append(e.notes, detail)
+	}
+	e.recordViolation(msg, "MustFinish", m)
+	panic(pathEnd{"violation-end", msg})
+}
+
 func (e *Engine) tick(n int) {
 	e.instrs += n
 	if e.finishBudget > 0 && e.instrs > e.finishBudget {
 		// verif.MustFinish: the code under test did not come back within its step bound
-		msg := "engine: " + e.finishMsg
-		e.finishBudget = 0
-		if e.check(e.T.True) != sym.Sat {
-			panic(pathEnd{"unknown", "path condition not satisfiable at MustFinish bound"})
-		}
-		m, err := e.S.Model(e.pathVars())
-		if err != nil {
-			panic(pathEnd{"unknown", "no model at MustFinish bound"})
-		}
-		e.recordViolation(msg, "MustFinish", m)
-		panic(pathEnd{"violation-end", msg})
+		e.finishViolation("")
 	}
 	if e.instrs > e.maxInstrs {
 		panic(pathEnd{"fuel", fmt.Sprintf("more than %d instructions on one path (last at %s)", e.maxInstrs, e.where(e.curFr))})
